@@ -64,6 +64,16 @@ CHECKS = {
     technique='Coq proof (invariant of the work list, potential function for '
               'termination) + real shell on exhaustive small inclusion graphs '
               '+ extraction oracle'),
+ 'C16': dict(
+    text='partial: the escaping layer (protect_html is a character map, its '
+         'output holds no markup characters outside the line-break mark, '
+         'decoding gives the source back) and the line splitting / highlight '
+         'wrapping are theorems; region grouping, overlap list and line '
+         'numbers are part of the byte-exact executable model and are decided '
+         'by the correspondence run and the HTML-parsing oracle',
+    ref='6/C16',
+    technique='Coq proof (escaping, splitting) + byte-exact model of '
+              'genhtml.py run against the implementation + HTML parser oracle'),
 }
 
 NOT_YET = {}
